@@ -8,7 +8,9 @@
    from the empty registry; every theorem is for ALL sequences [ops] over the
    operations register / subscribe / subscribe_only_to / unsubscribe /
    notify_subscribers / kill_resource / deregister / get_subscribers /
-   get_subscriptions and consumer-side get_nowait[+task_done] on any queue. *)
+   get_subscriptions and consumer-side get_nowait[+task_done] on any queue.
+   [ORegister r t c]: c = 0 registers with the default unbounded queue, c > 0
+   with the caller's own fresh bounded queue asyncio.LifoQueue(maxsize=c). *)
 From Koreo Require Import Registry Registry_proofs.
 From Coq Require Import Relations.
 Local Open Scope nat_scope.
@@ -89,9 +91,12 @@ Proof. exact step_results. Qed.
    has a live queue and to nobody else, notifying never fails because some
    subscriber was killed or deregistered":
    notify returns normally; both views and the queue dict are unchanged; a
-   queue object that belongs to a current subscriber of n and is not shut down
-   gains exactly the one event (n, t) on top; every other queue object ever
-   created (killed, deregistered, or not a subscriber's) is unchanged *)
+   queue object that belongs to a current subscriber of n, is not shut down
+   and (if bounded) not full — [live_target] — gains exactly the one event
+   (n, t) on top; every other queue object ever created (killed, deregistered,
+   full, or not a subscriber's) is unchanged.  A "live queue" is one that can
+   take the event: put_nowait on a full bounded queue raises QueueFull, which
+   notify_subscribers swallows for that subscriber only. *)
 Theorem C17_notify_exact : forall ops n t,
   let s := run ops empty in
   let s' := fst (step (ONotify n t) s) in
@@ -102,6 +107,28 @@ Theorem C17_notify_exact : forall ops n t,
     (live_target s n q -> nth_error (heap s') q = Some (push (ERes n t) qu)) /\
     (~ live_target s n q -> nth_error (heap s') q = Some qu).
 Proof. exact notify_exact. Qed.
+
+(* the full-queue case spelled out: a subscriber whose bounded queue is full gets
+   nothing from this notification (and, by C17_notify_exact, all others still
+   get theirs) *)
+Theorem C17_notify_full_skipped : forall ops n t q qu,
+  let s := run ops empty in
+  nth_error (heap s) q = Some qu -> full qu = true ->
+  nth_error (heap (fst (step (ONotify n t) s))) q = Some qu.
+Proof. exact notify_full_skipped. Qed.
+
+(* kill_resource always leaves the queue shut down: the Kill marker is put on
+   top when there is room; when the queue is full (QueueFull swallowed) or
+   already shut down the items are left alone — but it IS shut down *)
+Theorem C17_kill_shuts_down : forall r s q qu,
+  lookup r (queues s) = Some q -> nth_error (heap s) q = Some qu ->
+  let s' := fst (step (OKill r) s) in
+  snd (step (OKill r) s) = RNone /\
+  nth_error (heap s') q = Some (kill_q qu) /\ shut (kill_q qu) = true /\
+  items (kill_q qu) = (if shut qu || full qu then items qu else EKill :: items qu) /\
+  (forall q', q' <> q -> nth_error (heap s') q' = nth_error (heap s) q') /\
+  subs s' = subs s /\ watches s' = watches s /\ queues s' = queues s.
+Proof. exact kill_shuts_down. Qed.
 
 (* every resource has its own queue object, so "once per queue" is "once per subscriber" *)
 Theorem C17_queues_private : forall ops a b q,
@@ -129,6 +156,16 @@ Theorem C17_deregister_releases : forall ops r t,
      (~ live_target s r q -> nth_error (heap s') q = Some qu)).
 Proof. exact deregister_releases. Qed.
 
+(* the full-queue case spelled out: deregistering a resource whose own bounded
+   queue is FULL still shuts it down and drains it, and a later get raises *)
+Theorem C17_deregister_full_released : forall ops r t q qu,
+  let s := run ops empty in
+  lookup r (queues s) = Some q -> nth_error (heap s) q = Some qu -> full qu = true ->
+  let s' := fst (step (ODeregister r t) s) in
+  nth_error (heap s') q = Some (Q [] true (unfinished qu - List.length (items qu)) (cap qu)) /\
+  step (OGet q) s' = (s', Raised QueueShutDown).
+Proof. exact deregister_full_released. Qed.
+
 (* ... so a consumer that is (or goes) waiting on the old queue gets QueueShutDown *)
 Theorem C17_released_get_raises : forall s q qu (d : bool),
   nth_error (heap s) q = Some (released qu) ->
@@ -136,16 +173,27 @@ Theorem C17_released_get_raises : forall s q qu (d : bool),
 Proof. exact released_get_raises. Qed.
 
 (* registering an already registered resource returns its queue and notifies nobody *)
-Theorem C17_register_again : forall r t s q,
-  lookup r (queues s) = Some q -> step (ORegister r t) s = (s, RQueue q).
+Theorem C17_register_again : forall r t c s q,
+  lookup r (queues s) = Some q -> step (ORegister r t c) s = (s, RQueue q).
 Proof. exact register_again. Qed.
+
+(* registering a new resource creates its queue and notifies its subscribers
+   like notify does; it cannot fail (C17_step_results), whatever state the
+   subscribers' queues are in *)
+Theorem C17_register_fresh : forall r t c s,
+  lookup r (queues s) = None ->
+  step (ORegister r t c) s =
+  (notify r t (St (subs s) (watches s) ((r, List.length (heap s)) :: queues s)
+                  (heap s ++ [new_queue c])),
+   RQueue (List.length (heap s))).
+Proof. exact register_fresh. Qed.
 
 (* non-vacuity: a history with a chain 0 -> 2, 1 -> 2, a killed subscriber and
    a live one.  The cycle-closing subscriptions are refused, the notification
    reaches resource 0's queue only, and deregistering 0 empties and shuts its
    queue and clears its edges. *)
 Example C17_nonvacuous :
-  let ops := [ORegister 0 1; ORegister 1 2; ORegister 2 3; OSubscribe 0 2; OSubscribe 1 2;
+  let ops := [ORegister 0 1 0; ORegister 1 2 0; ORegister 2 3 0; OSubscribe 0 2; OSubscribe 1 2;
               ONotify 2 4; OKill 1] in
   let s := run ops empty in
   watches s = [(1, 2); (0, 2)] /\ subs s = [(2, 1); (2, 0)] /\
@@ -153,17 +201,32 @@ Example C17_nonvacuous :
   step (OSubscribeOnly 2 [1; 2]) s = (s, Raised Cycle) /\
   live_target s 2 0 /\ ~ live_target s 2 1 /\
   heap (fst (step (ONotify 2 5) s)) =
-    [Q [ERes 2 5; ERes 2 4] false 2; Q [EKill; ERes 2 4] true 2; Q [] false 0] /\
+    [Q [ERes 2 5; ERes 2 4] false 2 0; Q [EKill; ERes 2 4] true 2 0; Q [] false 0 0] /\
   (let s' := fst (step (ODeregister 0 6) s) in
    watches s' = [(1, 2)] /\ subs s' = [(2, 1)] /\ queues s' = [(2, 2); (1, 1)] /\
-   nth_error (heap s') 0 = Some (Q [] true 0)).
+   nth_error (heap s') 0 = Some (Q [] true 0 0)).
 Proof.
   vm_compute. repeat split.
-  - exists 0, (Q [ERes 2 4] false 1). vm_compute. auto.
-  - intros (r & qu & Hr & L & Hq & Sh). vm_compute in Hr, L, Hq.
+  - exists 0, (Q [ERes 2 4] false 1 0). vm_compute. auto.
+  - intros (r & qu & Hr & L & Hq & Sh & _). vm_compute in Hr, L, Hq.
     destruct Hr as [Hr|[Hr|[]]]; injection Hr as <-; vm_compute in L; try discriminate.
     injection Hq as <-. discriminate.
 Qed.
+
+(* non-vacuity, bounded queues: resource 0 registers with its own queue of
+   capacity 1 and watches 2, as does resource 1 with the default queue.  After
+   one notification 0's queue is full: the next one reaches 1 only; killing 0
+   cannot enqueue the marker but shuts the queue down; deregistering 0 while
+   full leaves its queue shut down and empty. *)
+Example C17_nonvacuous_bounded :
+  let ops := [ORegister 0 1 1; ORegister 1 2 0; OSubscribe 0 2; OSubscribe 1 2; ONotify 2 3] in
+  let s := run ops empty in
+  heap s = [Q [ERes 2 3] false 1 1; Q [ERes 2 3] false 1 0] /\
+  heap (fst (step (ONotify 2 4) s)) = [Q [ERes 2 3] false 1 1; Q [ERes 2 4; ERes 2 3] false 2 0] /\
+  heap (fst (step (OKill 0) s)) = [Q [ERes 2 3] true 1 1; Q [ERes 2 3] false 1 0] /\
+  heap (fst (step (ODeregister 0 5) s)) = [Q [] true 0 1; Q [ERes 2 3] false 1 0] /\
+  snd (step (ORegister 2 6 0) (fst (step (OSubscribe 0 2) s))) = RQueue 2.
+Proof. vm_compute. repeat split. Qed.
 
 Print Assumptions C17_views_inverse.
 Print Assumptions C17_views_are_sets.
@@ -180,3 +243,7 @@ Print Assumptions C17_queues_private.
 Print Assumptions C17_deregister_releases.
 Print Assumptions C17_released_get_raises.
 Print Assumptions C17_register_again.
+Print Assumptions C17_notify_full_skipped.
+Print Assumptions C17_kill_shuts_down.
+Print Assumptions C17_deregister_full_released.
+Print Assumptions C17_register_fresh.
